@@ -105,6 +105,8 @@ def _perf_cases(tier):
     # equal onset and pitch on two channels, the lower channel released later; equal onset, pitch and release on two channels
     cases.append(("same_onset_and_pitch_on_two_channels", [dict(notes=[(60, 0.0, 2.0, 64, 0), (60, 0.0, 1.0, 65, 1), (64, 0.5, 1.0, 66, 3), (64, 0.5, 1.0, 67, 2), (62, 0.0, 0.5, 60, 1)],
                                                                 controls=[], programs=[])]))
+    # one performed part whose notes sit on tracks that are not numbered 0..n-1 (a Performance renumbers them; the file then carries the same tracks)
+    cases.append(("single_part_on_tracks_2_and_5", [dict(notes=[(60, 0.0, 1.0, 64, 0, 2), (64, 0.5, 1.5, 65, 0, 5), (67, 1.0, 2.0, 66, 1, 2), (72, 1.5, 2.5, 67, 1, 5)], controls=[], programs=[])]))
     cases.append(("meta_and_signatures", [dict(notes=[(60, 0.0, 1.0, 64, 0)], controls=[], programs=[(0.0, 1, 0), (0.5, 40, 0)],
                                                key_signatures=[dict(time=0.0, fifths=-3, mode="minor"), dict(time=1.0, fifths=2, mode="major")],
                                                time_signatures=[dict(time=0.0, beats=6, beat_type=8)], meta_other=[dict(time=0.25, type="marker", text="A")])]))
@@ -118,7 +120,7 @@ def _build(parts):
     import partitura.performance as pf
     pps = []
     for i, d in enumerate(parts):
-        nl = [dict(id="n%d" % k, midi_pitch=p, note_on=on, note_off=off, velocity=v, track=i, channel=ch) for k, (p, on, off, v, ch) in enumerate(d["notes"])]
+        nl = [dict(id="n%d" % k, midi_pitch=x[0], note_on=x[1], note_off=x[2], velocity=x[3], track=(x[5] if len(x) > 5 else i), channel=x[4]) for k, x in enumerate(d["notes"])]
         cl = [dict(number=num, time=t, value=val, track=i, channel=0) for (num, t, val) in d.get("controls", [])]
         pl = [dict(time=t, program=pr, track=i, channel=ch) for (t, pr, ch) in d.get("programs", [])]
         pps.append(pf.PerformedPart(nl, id="P%d" % i, controls=cl, programs=pl, key_signatures=[dict(k, track=i) for k in d.get("key_signatures", [])],
@@ -151,7 +153,7 @@ def bounded(b):
         for (ppq, mpq) in settings:
             for kind in ("performance", "part", "list"):
                 for merge_save, merge_load in ((False, False), (True, False), (False, True)):
-                    if kind == "part" and len(parts) > 1:
+                    if kind == "part" and (len(parts) > 1 or name == "single_part_on_tracks_2_and_5"):
                         continue
                     if (merge_save or merge_load) and kind != "performance":
                         continue
@@ -276,16 +278,22 @@ def _tempo_files(b):
         "tempo_in_track1_only": {1: [(480, 250000)]},
         "tempo_interleaved": {0: [(0, 400000), (1440, 800000)], 1: [(480, 250000), (2000, 500000)]},
         "no_tempo": {},
+        # slow tempi (later than the provisional conversion assumes), in a conductor track and in a track after the notes
+        "slow_conductor_track_then_fast": {0: [(0, 1000000), (1920, 400000)]},
+        "slow_tempo_in_a_later_track": {2: [(0, 750000)]},
+        "tempo_restated_in_second_track": {0: [(0, 500000), (960, 500000)], 1: [(480, 500000), (1200, 600000)]},
     }
+    notes_only_track1 = {1: [(0, 480, 60, 0, 64, False), (480, 1900, 62, 0, 70, True), (2000, 2400, 64, 1, 1, False)]}
     for name, tev in files.items():
         case = {"file": name}
-        mf = build(tev, notes)
+        nts = notes_only_track1 if name == "slow_conductor_track_then_fast" else notes
+        mf = build(tev, nts)
         ok, perf = b.guard("load/no_exception", case, lambda: pt.load_performance_midi(mf))
         if not ok:
             continue
         good, what = True, ""
         got = sorted((n["midi_pitch"], n["channel"], n["note_on_tick"], n["note_off_tick"], n["velocity"], n["note_on"], n["note_off"]) for pp in perf.performedparts for n in pp.notes)
-        want = sorted((p, ch, on, off, vel) for tr in notes.values() for (on, off, p, ch, vel, zv) in tr)
+        want = sorted((p, ch, on, off, vel) for tr in nts.values() for (on, off, p, ch, vel, zv) in tr)
         if [g[:5] for g in got] != want:
             good, what = False, "paired notes %r, expected %r" % ([g[:5] for g in got], want)
         else:
